@@ -82,6 +82,11 @@ class Prop(BaseProp):
                     if f_.lower().endswith(".cmake"):
                         del tree.files[f_]
                 res.count("trees_without_cmake_file_at_the_top")
+            if rng.random() < 0.05:
+                # scale: one module whose page is larger than any stdio buffer
+                big_ = "".join(f"#[[[\n# Documented function number {k_} of a very large module.\n#\n# :param x: a parameter\n#]]\nfunction(big_fn_{k_} x)\nendfunction()\n" for k_ in range(700))
+                tree.files[os.path.join(rng.choice(sorted(tree.dirs)), "m_big.cmake")] = big_
+                res.count("trees_with_a_page_larger_than_64KiB")
             if rng.random() < 0.1:
                 # a file whose whole name is the extension
                 d_ = rng.choice(sorted(tree.dirs))
@@ -212,8 +217,10 @@ class Prop(BaseProp):
                         continue
                     t.append(open(p, encoding="utf-8", newline="").read())
                 texts.append(t)
-            if ok:
-                rest = fr0.outcome.stdout
+            def match_stdout(text_, count=True):
+                """consumes `text_` directory block by directory block (blocks in any order, pages of a block in sorted order,
+                each page followed by one or two line ends); -> (unparsed rest, blocks that were not found)"""
+                rest = text_
                 remaining = list(texts)
                 progress = True
                 while rest and remaining and progress:
@@ -237,16 +244,37 @@ class Prop(BaseProp):
                         if good and t:
                             rest = rest[pos:]
                             remaining.pop(bi)
-                            res.count("stdout_pages_matched", len(t))
+                            if count:
+                                res.count("stdout_pages_matched", len(t))
                             progress = True
                             break
-                remaining = [t for t in remaining if t]
+                return rest, [t for t in remaining if t]
+            self._match_stdout = match_stdout if ok else None
+            if ok:
+                rest, remaining = match_stdout(fr0.outcome.stdout)
                 if rest.strip() != "" or remaining:
                     cls = "stdout-extra-text" if not remaining else "stdout-page-missing-or-misordered"
                     if "index" in rest and "toctree" in rest:
                         cls = "stdout-contains-index-page"
                     res.violate(cls, f"unparsed stdout {rest[:200]!r}; {len(remaining)} directory blocks unmatched",
                                 dict(wit, stdout=fr0.outcome.stdout[:3000]))
+            # the printed pages are the same text whatever standard output is attached to: a terminal 40 columns wide, a pipe
+            # with ordinary buffering (pages larger than a buffer included), COLUMNS set in the environment
+            if idx % 12 == 3:
+                for how in ("tty", "pipe"):
+                    if how == "tty":
+                        rc_, so_, se_ = runner.run_cli_pty(base, cwd=work, home=home, on_tty=("stdout", "stderr"), cols=40)
+                    else:
+                        env_ = {k_: v_ for k_, v_ in os.environ.items() if k_ != "PYTHONUNBUFFERED"}
+                        rc_, so_, se_ = runner.run_cli(base, cwd=work, home=home, env_extra={"COLUMNS": "30", "LINES": "7", "PYTHONUNBUFFERED": ""})
+                    res.count("stdout_runs_on_a_" + how)
+                    if rc_ != 0:
+                        res.violate(f"stdout-run-failed:{how}", se_[-300:], wit)
+                    elif self._match_stdout is not None:
+                        rest_, remaining_ = self._match_stdout(so_, count=False)
+                        if rest_.strip() != "" or remaining_:
+                            res.violate(f"stdout-text-depends-on-what-stdout-is:{how}", f"unparsed {rest_[:160]!r}; {len(remaining_)} "
+                                        f"directory blocks not found", dict(wit, stdout=so_[:1500]))
             # the other direction: every page that the -o run left behind (index pages and foreign files apart) is one of the
             # pages standard output carries
             known = {os.path.normpath(p_) for b_ in blocks for p_ in b_}
